@@ -1,6 +1,6 @@
 // Package overlay generates the build overlay that instruments the code under
-// test without touching /repo: a virtual package deps.dev/util/resolve/verifhook,
-// a yield call before every Lock/RLock statement in util/resolve/**, and a size
+// test without touching /repo: a virtual package deps.dev/util/semver/verifhook (every module under util/ already depends on util/semver),
+// a yield call before every Lock/RLock statement and every sync.Map/atomic/Once operation in util/{semver,maven,pypi,resolve}/**, and a size
 // knob around the PyPI resolver's lru.New capacity arguments. Edits are textual
 // and stay on the original line, so line numbers in race reports are those of
 // /repo.
@@ -74,13 +74,13 @@ type edit struct {
 // overlay JSON file.
 func Generate(repo, dir string) (string, *Report, error) {
 	rep := &Report{}
-	root := filepath.Join(repo, "util/resolve")
+	root := filepath.Join(repo, "util")
 	replace := map[string]string{}
 	hook := filepath.Join(dir, "verifhook.go.txt")
 	if err := os.WriteFile(hook, []byte(hookSrc), 0o644); err != nil {
 		return "", nil, err
 	}
-	replace[filepath.Join(root, "verifhook", "hook.go")] = hook
+	replace[filepath.Join(root, "semver", "verifhook", "hook.go")] = hook
 
 	var files []string
 	err := filepath.Walk(root, func(p string, info os.FileInfo, err error) error {
@@ -235,7 +235,7 @@ func Generate(repo, dir string) (string, *Report, error) {
 			continue
 		}
 		// import on the package clause's line
-		edits = append(edits, edit{fset.Position(af.Name.End()).Offset, `; import verifhook "deps.dev/util/resolve/verifhook"`})
+		edits = append(edits, edit{fset.Position(af.Name.End()).Offset, `; import verifhook "deps.dev/util/semver/verifhook"`})
 		sort.SliceStable(edits, func(i, j int) bool { return edits[i].off < edits[j].off })
 		var sb strings.Builder
 		last := 0
